@@ -1,11 +1,14 @@
 """C09 – receiving and processing arbitrary input is memory-safe and resource-exact: case generation."""
 import random
 from vf import Case
+from gen import constants
 from props import regpcommon as R
 
 ID = "C09"
 DRIVER = "drv_regp"
 HARNESS = "h_regp"
+GEN = [constants.gen]
+TIE = ['Ufw.Tie.Regp']
 RULE = ("both transports x {8,16}-bit memory x allocator block sizes F+1, F+2, F+11..F+17, 100, 128, 200: frames (requests, responses, meta, garbage) of "
         "every length B-F-3 .. B-F+3 and 0..20; every read block size around the transmit limit; block-size fields at 2^31, 2^32-1, 2^16.. against payloads of 0..3 atoms; allocation failure at every allocation of a "
         "session (scripts f, sf, ssf, fsfs ...); a source error at every position of a frame and a stream ending at every position, followed by "
